@@ -352,44 +352,97 @@ def gen_spec(rng, big=False):
 
     classes = [{'kind': c['kind'], 'attrs': [[a['name'], a['type']] for a in c['attrs']], 'idents': c['idents'],
                 'roles': [a['role'] for a in c['attrs']]} for c in work]
-    return {'classes': classes, 'assocs': assocs, 'rows': rows, 'links': links, 'int_rel_ids': rng.random() < 0.5}
+    spec = {'classes': classes, 'assocs': assocs, 'rows': rows, 'links': links, 'int_rel_ids': rng.random() < 0.5}
+    # the documented build order of the meta API: instances with referential VALUES first, then define_association +
+    # batch_relate + formalize, then links re-wired with unrelate / relate.  `prelinks` are the links the stored values
+    # denote at formalisation time, `links` stays the final state.
+    if assocs and rows and rng.random() < 0.4:
+        final = {(l['assoc'], l['src']): l['tgt'] for l in links}
+        prelinks = []
+        for ai, a in enumerate(assocs):
+            tgts = list(per_class[a['tgt']['ci']])
+            for s in per_class[a['src']['ci']]:
+                cur = final.get((ai, s))
+                r = rng.random()
+                if r < 0.45:
+                    t = cur                                  # unchanged
+                elif r < 0.85 and tgts:
+                    t = rng.choice(tgts)                     # moved (or newly linked / self-linked) later
+                else:
+                    t = None                                 # linked only later, or never
+                if t is not None:
+                    prelinks.append({'assoc': ai, 'src': s, 'tgt': t})
+        spec['prelinks'] = prelinks
+    return spec
+
+
+def _check_linked(ass, src, tgt):
+    if src not in ass.source_link.get(tgt, ()) or tgt not in ass.target_link.get(src, ()):
+        raise ValueError('the intended instances are not linked across %s' % ass.rel_id)
 
 
 def build(xtuml, spec):
-    """the metamodel of a spec, built through the public API only"""
+    """the metamodel of a spec, built through the public API only.  Without `prelinks`: classes, associations,
+    instances, relate.  With `prelinks` (the documented order of the meta API): classes, instances holding the
+    referential VALUES of their pre-links, then define_association + batch_relate + formalize, then the links are
+    re-wired to the final state with unrelate / relate."""
     m = xtuml.MetaModel(xtuml.IntegerGenerator())
     for c in spec['classes']:
         m.define_class(c['kind'], [tuple(a) for a in c['attrs']])
+    pre = spec.get('prelinks')
+    insts = []
+
+    def new_rows(skip_referential):
+        for r in spec['rows']:
+            c = spec['classes'][r['ci']]
+            inst = m.new(c['kind'])
+            mc = xtuml.get_metaclass(inst)
+            for (nm, ty), v in zip(c['attrs'], r['vals']):
+                if skip_referential and nm in mc.referential_attributes:
+                    continue
+                setattr(inst, nm, v)
+            insts.append(inst)
+
+    if pre is not None:
+        new_rows(False)
+        for l in pre:
+            a = spec['assocs'][l['assoc']]
+            tc = spec['classes'][a['tgt']['ci']]
+            names = [x[0] for x in tc['attrs']]
+            for sk, tk in zip(a['src']['keys'], a['tgt']['keys']):
+                setattr(insts[l['src']], sk, spec['rows'][l['tgt']]['vals'][names.index(tk)])
     asses = []
     for a in spec['assocs']:
         rel = a['rel'] if spec.get('int_rel_ids') else 'R%d' % a['rel']
         s, t = a['src'], a['tgt']
         ass = m.define_association(rel, spec['classes'][s['ci']]['kind'], list(s['keys']), s['many'], s['cond'], s['phrase'],
                                    spec['classes'][t['ci']]['kind'], list(t['keys']), t['many'], t['cond'], t['phrase'])
+        if pre is not None:
+            ass.batch_relate()
         ass.formalize()
         asses.append(ass)
     for c in spec['classes']:
         for nm, attrs in c['idents']:
             m.define_unique_identifier(c['kind'], nm, *attrs)
-    insts = []
-    for r in spec['rows']:
-        c = spec['classes'][r['ci']]
-        inst = m.new(c['kind'])
-        mc = xtuml.get_metaclass(inst)
-        for (nm, ty), v in zip(c['attrs'], r['vals']):
-            if nm in mc.referential_attributes:
-                continue
-            setattr(inst, nm, v)
-        insts.append(inst)
+    if pre is None:
+        new_rows(True)
+    final = set((l['assoc'], l['src'], l['tgt']) for l in spec['links'])
+    before = set((l['assoc'], l['src'], l['tgt']) for l in (pre or []))
+    for l in (pre or []):
+        ass = asses[l['assoc']]
+        _check_linked(ass, insts[l['src']], insts[l['tgt']])
+        if (l['assoc'], l['src'], l['tgt']) not in final:
+            xtuml.unrelate(insts[l['tgt']], insts[l['src']], ass.rel_id, spec['assocs'][l['assoc']]['tgt']['phrase'])
     for l in spec['links']:
+        if (l['assoc'], l['src'], l['tgt']) in before:
+            continue
         a = spec['assocs'][l['assoc']]
         ass = asses[l['assoc']]
         src, tgt = insts[l['src']], insts[l['tgt']]
         # relate(target instance, source instance, rel, target phrase) selects `source_link` of exactly this association
-        # when its ends are distinguishable; connect directly otherwise (two formalisations between the same classes)
         xtuml.relate(tgt, src, ass.rel_id, a['tgt']['phrase'])
-        if src not in ass.source_link.get(tgt, ()) or tgt not in ass.target_link.get(src, ()):
-            raise ValueError('relate did not link the intended instances across %s' % ass.rel_id)
+    for l in spec['links']:
+        _check_linked(asses[l['assoc']], insts[l['src']], insts[l['tgt']])
     return Built(m, insts, asses)
 
 
